@@ -502,6 +502,10 @@ private:
         }
         if (inter.empty())
             inter.insert("UNATTRIBUTED.mismatch");
+        // an entry re-written by a successful update that dies before its restarted deadline also refutes C09's
+        // "replaces the value (restarting any TTL)"
+        if (inter.count("C05.restart"))
+            inter.insert("C09.restart");
         viol.tags.assign(inter.begin(), inter.end());
         viol.detail = detail;
     }
